@@ -94,6 +94,19 @@ def normalize_like(expr):
     return expr
 
 
+def _sign_of_zero(value):
+    """Return a tag that distinguishes negative zeros from positive zeros.
+
+    Since `0.0 == -0.0` and `hash(0.0) == hash(-0.0)`, a key that contains
+    only the value of a constant would identify constants `0.0` and `-0.0`.
+    """
+    if isinstance(value, (float, numpy.floating)):
+        return "-" if value == 0 and numpy.signbit(value) else ""
+    if isinstance(value, (complex, numpy.complexfloating)):
+        return _sign_of_zero(value.real) + "," + _sign_of_zero(value.imag)
+    return ""
+
+
 def make_constant(context, value, like_expr):
     if not isinstance(like_expr, Expr):
         raise TypeError(f"Constant like expression must be Expr instance, got {type(like_expr)}")
@@ -426,7 +439,7 @@ class Expr:
             value, like = self.operands
             r = (
                 "z_" + self.kind,  # prefix `z_` ensures that constants are sorted as largest kinds
-                value.key if isinstance(value, Expr) else (value, type(value).__name__),
+                value.key if isinstance(value, Expr) else (value, type(value).__name__, _sign_of_zero(value)),
                 like.key,
             )
         else:
